@@ -92,8 +92,14 @@ def generate(rng, profile="any", ndefs=None, nlibs=None, style="simple", max_chi
                 ref = r.choice(defs)
                 shared = ref
             props = None
-            if r.random() < 0.2:
-                props = {"EDIF.properties": [{"identifier": "INIT", "value": r.choice([1, "8'h2A", True])}]}
+            if r.random() < 0.3:
+                plist = []
+                for q in range(r.choice([1, 1, 2, 3])):
+                    pr = {"identifier": "P%d" % q if q else "INIT", "value": r.choice([1, "8'h2A", True, "soft lut", 0])}
+                    if r.random() < 0.4:
+                        pr["original_identifier"] = pr["identifier"] + r.choice([".o", "[0]", " x"])
+                    plist.append(pr)
+                props = {"EDIF.properties": plist}
             ch = d.create_child(maybe(nm(("i", id(d)), r.choice(["i", "u", "inst"]) + str(j))), reference=ref,
                                 properties=props)
             if r.random() < 0.1:
